@@ -490,6 +490,29 @@ func vEverySecond(t *testing.T, r *Report, e Env) {
 	if len(fires) < 3 || len(fires) > 5 {
 		r.Violate("", fmt.Sprintf("an every-second job polled every 50 ms for 4.3 s sent %d requests (3 to 5 occurrences fall into that time)", len(fires)), J{"phase": "every-second", "fires_ms_after_add": offs})
 	}
+	// a schedule without any occurrence (30 February): refused or accepted, the job does not fire
+	c.Delete("acct", "every")
+	mu.Lock()
+	before := len(at)
+	mu.Unlock()
+	nj, _ := NewJob("acct", "never", "0 0 30 2 *")
+	nj.URL = srv.URL + "/never"
+	aerr := c.Add(nj)
+	for i := 0; i < 10; i++ {
+		if err := c.DB.Update(c.work("0")); err != nil {
+			r.Violate("", "work() failed: "+err.Error(), J{"phase": "no-occurrence"})
+			return
+		}
+		time.Sleep(20 * time.Millisecond)
+	}
+	mu.Lock()
+	extra := len(at) - before
+	mu.Unlock()
+	r.Case(true, fmt.Sprint("no-occurrence", e.Batch))
+	r.Count("crolt_no_occurrence_runs", 1)
+	if extra > 0 {
+		r.Violate("", fmt.Sprintf("a job whose schedule has no occurrence (30 February) sent %d requests in 10 polls", extra), J{"phase": "no-occurrence", "add_error": fmt.Sprint(aerr)})
+	}
 }
 
 // vSameIdAdds: several clients add a job under one (account, id) at the same time.  The service
